@@ -1,4 +1,4 @@
-import Confuse.Lemmas.Erase
+import Confuse.Lemmas.SkipInv
 /-!
 # C12 — an undeclared item inserted between two items changes nothing
 
@@ -464,6 +464,33 @@ theorem C12_insert_titled_section (orc : Oracle) (m : PM) (f : Frame) (rest : Li
     obs (parseToks orc m (([(.str name, n1), (.str title, n2), (.lbrace, n3)] ++ body ++ [(.rbrace, n4)]) ++ post)) = obs (parseToks orc m post) :=
   C12_insert orc m f _ rest _ post hrun hfr hu.1 hu.2.2.2.2
     (C12_skip_titled_section orc m f rest name title n1 n2 n3 n4 body hrun hfr hu hin hbal) (skipped_rel_depth f _ hu.1 hd) rfl
+
+end Confuse
+
+namespace Confuse
+
+/-- at a boundary of a machine that satisfies the invariant the skip locals are clear -/
+theorem clear_at_boundary (m : PM) (f : Frame) (rest : List Frame) (hinv : InvM m) (hfr : m.frames = f :: rest) (hs0 : f.state = .s0) :
+    f.depth = 0 ∧ f.ignore = .none := by
+  have := hinv.1 f (by simp [hfr])
+  exact ⟨this.1 (by simp [hs0]), this.2 (by simp [hs0])⟩
+
+/-- **C12 (insertion, at any boundary reached by a parse).** `pre` is any token sequence parsed from
+the machine a parse starts with; if that leaves the parser at an item boundary where `name` is
+undeclared (and not right after a deprecated option), then inserting the section `name { body }` —
+`body` any brace-balanced token sequence — before any continuation `post` does not change the
+observable outcome. -/
+theorem C12_insert_reachable (orc : Oracle) (c : Cfg) (text : Bytes) (k0 : Nat) (pre body post : List LTok)
+    (f : Frame) (rest : List Frame) (name : Bytes) (n1 n2 n3 : Nat)
+    (hrun : (parseToks orc (startPM c text k0) pre).status = .running)
+    (hfr : (parseToks orc (startPM c text k0) pre).frames = f :: rest) (hu : UnknownHere f name)
+    (hin : ∀ t ∈ body, t.1.inner = true) (hbal : depthAfter 1 body = some 1) :
+    obs (parseToks orc (startPM c text k0) (pre ++ (([(.str name, n1), (.lbrace, n2)] ++ body ++ [(.rbrace, n3)]) ++ post))) =
+      obs (parseToks orc (startPM c text k0) (pre ++ post)) := by
+  rw [parseToks_append', parseToks_append' orc _ pre post]
+  have hinv := parseToks_inv orc pre _ (startPM_inv c text k0)
+  exact C12_insert_section orc _ f rest name n1 n2 n3 body post hrun hfr hu hin hbal
+    (clear_at_boundary _ f rest hinv hfr hu.1).1
 
 end Confuse
 
